@@ -9,14 +9,35 @@ COMMON_ASSUME = [
 ]
 
 
-def engine_part(name, pkg, mode, shards_quick=1, shards_thorough=NCPU, release_in_thorough=True, thorough_only=False, timeout=7200):
+ASAN_TRIPLE = 'x86_64-unknown-linux-gnu'
+ASAN_ENV = {'RUSTFLAGS': '-Zsanitizer=address'}
+ASAN_RUN_ENV = {'ASAN_OPTIONS': 'detect_leaks=0:abort_on_error=1:allocator_may_return_null=1'}
+
+
+def asan_target():
+    import vdriver
+    return os.path.join(vdriver.BASE, 'target_asan')
+
+
+def asan_run(pkg, mode, tier, shards, extra_args=None, timeout=7200):
+    """AddressSanitizer substrate: the same enumeration, rebuilt with `cargo +nightly -Zsanitizer=address`, as a
+    per-execution memory monitor (an out-of-bounds access aborts the engine; the driver reports the in-flight case)."""
+    cargo_build(pkg, 'dev', toolchain='nightly', extra_env=ASAN_ENV, target_dir=asan_target(), extra_args=['--target', ASAN_TRIPLE])
+    r = run_engine(bin_path(pkg, 'dev', asan_target(), ASAN_TRIPLE), mode, tier, shards=shards, env=ASAN_RUN_ENV, timeout=timeout, extra_args=extra_args, label='asan')
+    for v in r['violations']:
+        v['substrate'] = 'asan'
+    return r
+
+
+def engine_part(name, pkg, mode, shards_quick=1, shards_thorough=NCPU, release_in_thorough=True, thorough_only=False, timeout=7200, asan=None, asan_args=None):
+    """asan: None | 'quick' (AddressSanitizer substrate in both tiers, at the quick bounds) | 'thorough' (thorough tier only)"""
     def run(part, tier):
         cargo_build(pkg, 'dev')
         shards = shards_quick if tier == 'quick' else shards_thorough
         res = run_engine(bin_path(pkg, 'dev'), mode, tier, shards=shards, timeout=timeout)
         for v in res['violations']:
             v['substrate'] = 'dev'
-        subs = {'dev(opt-level=1,debug-assertions)': {'evaluations': res['result'].get('evaluations'), 'violations': len(res['violations'])}}
+        subs = {'dev(opt-level=0,debug-assertions)': {'evaluations': res['result'].get('evaluations'), 'violations': len(res['violations'])}}
         if tier == 'thorough' and release_in_thorough:
             cargo_build(pkg, 'release')
             r2 = run_engine(bin_path(pkg, 'release'), mode, tier, shards=shards, timeout=timeout, label='release')
@@ -25,13 +46,23 @@ def engine_part(name, pkg, mode, shards_quick=1, shards_thorough=NCPU, release_i
                 v['desc'] = v.get('desc', '')
             res['violations'] += r2['violations']
             subs['release(opt-level=3)'] = {'evaluations': r2['result'].get('evaluations'), 'violations': len(r2['violations'])}
+        if asan == 'quick' or (asan == 'thorough' and tier == 'thorough'):
+            r3 = asan_run(pkg, mode, 'quick', max(shards_quick, 4), extra_args=asan_args, timeout=timeout)
+            res['violations'] += r3['violations']
+            subs['asan(nightly,-Zsanitizer=address)'] = {'evaluations': r3['result'].get('evaluations'), 'violations': len(r3['violations'])}
         res['substrates'] = subs
         return res
 
     def replay(part, body):
-        prof = 'release' if body.get('substrate') == 'release' else 'dev'
-        cargo_build(pkg, prof)
-        rc, out, err = run_engine_once(bin_path(pkg, prof), ['--mode', mode, '--tier', 'thorough', '--only', body['desc']], None, 600)
+        sub = body.get('substrate', 'dev')
+        if sub == 'asan':
+            cargo_build(pkg, 'dev', toolchain='nightly', extra_env=ASAN_ENV, target_dir=asan_target(), extra_args=['--target', ASAN_TRIPLE])
+            binary, env = bin_path(pkg, 'dev', asan_target(), ASAN_TRIPLE), ASAN_RUN_ENV
+        else:
+            prof = 'release' if sub == 'release' else 'dev'
+            cargo_build(pkg, prof)
+            binary, env = bin_path(pkg, prof), None
+        rc, out, err = run_engine_once(binary, ['--mode', mode, '--tier', 'thorough', '--only', body['desc']], env, 600)
         viols, result, _ = parse_engine_output(out)
         if rc not in (0, 2) or result is None:
             return [{'desc': body['desc'], 'what': f'process died (status {rc}): {err[-400:]}'}]
@@ -47,7 +78,7 @@ PROPS = {}
 PROPS['C06'] = {
     'level': 'model_checking',
     'technique': 'explicit-state BFS over the real GenericArrayIter (replayed operation histories, canonical (origin, front, len) state key) against VecDeque and [T;N]::into_iter() reference models',
-    'parts': [engine_part('iter-bfs', 'e_iter', 'C06', shards_quick=4, shards_thorough=NCPU)],
+    'parts': [engine_part('iter-bfs', 'e_iter', 'C06', shards_quick=4, shards_thorough=NCPU, asan='quick')],
     'rule': ("BFS from GenericArray::into_iter() for every K in 0..=8 (thorough: also 9..=17, 31..=33 complete, 64 and 100 with the argument lattice "
              "{0,1,2,len-1,len,len+1,usize::MAX}) and element sizes 0/4/24 bytes; from every reachable state (origin fresh|clone-at-len, physical front index, len) every operation "
              "next, next_back, nth(k), nth_back(k) for k in 0..=len+2 and usize::MAX, clone, as_mut_slice()[j]=new for every j, plus the consuming operations fold, rfold, count, last, collect, "
@@ -64,7 +95,7 @@ PROPS['C06'] = {
 PROPS['C04'] = {
     'level': 'fault_enumeration',
     'technique': 'exhaustive single-fault enumeration: every call index of every closure / Clone::clone / Iterator::next an operation makes is made to panic once, on the real code, judged by a drop ledger',
-    'parts': [engine_part('caller-panic-enumeration', 'e_fault', 'C04', shards_quick=4)],
+    'parts': [engine_part('caller-panic-enumeration', 'e_fault', 'C04', shards_quick=4, asan='thorough')],
     'rule': ("for every operation x receiver/argument form (generate x4 + default x2; map x4; fold x4; zip 9 stack forms + boxed; Clone of array, Box and of the by-value iterator from every (origin, front, back); "
              "iterator fold/rfold/for_each/map-collect from every position; try_from_iter/from_iter/try_boxed_from_iter/boxed from_iter from a scripted source of c in {0,N-1,N,N+1,N+2} items with exact/absent hints, and from real "
              "into_iter().map chains; ArrayBuilder/IntrusiveArrayBuilder/ArrayConsumer dropped at every position and fed by extend) x N in {0..6,9,17} (thorough: +7,8,16,33; iterator positions N<=6, thorough N<=8,16) x element-type "
@@ -82,7 +113,7 @@ PROPS['C04'] = {
 PROPS['C05'] = {
     'level': 'fault_enumeration',
     'technique': 'exhaustive single-fault enumeration: for every internally-dropping operation from every iterator position, every choice of the one element whose destructor panics, on the real code; the run continues after the caught panic and a drop ledger is judged',
-    'parts': [engine_part('destructor-panic-enumeration', 'e_fault', 'C05', shards_quick=4)],
+    'parts': [engine_part('destructor-panic-enumeration', 'e_fault', 'C05', shards_quick=4, asan='thorough')],
     'rule': ("for every (origin fresh|clone, front f, back b) of the by-value iterator with N in 0..=6 (thorough: 7, 8 complete and 16 on the position lattice) x operation in {nth(n), nth_back(n) for n in 0..=len+1, count, last, drop, "
              "fold/rfold/for_each with a dropping closure, clone-then-drop, collect-then-drop}; dropping a GenericArray / Box / fresh iterator / boxed into_iter; ArrayBuilder, IntrusiveArrayBuilder and ArrayConsumer dropped at every position; the "
              "error paths of try_from_iter, from_iter, try_boxed_from_iter, boxed from_iter, TryFrom<Vec>, try_from_vec, try_from_boxed_slice, TryFrom<Box<[T]>> for c in {0,1,N-1,N,N+1,N+2}; map/zip/fold (owned and boxed) with closures that drop "
@@ -129,7 +160,7 @@ PROPS['C16'] = {
 PROPS['C02'] = {
     'level': 'exploration',
     'technique': 'bounded exhaustive enumeration of (N, source length L, entry point, element type) and of the shared/mutable view matrix on the real code, with pointer/length oracles on canaried buffers',
-    'parts': [engine_part('views', 'e_views', 'C02', shards_quick=2)],
+    'parts': [engine_part('views', 'e_views', 'C02', shards_quick=2, asan='thorough')],
     'rule': ("length gate: N in {0..13,15,16,17,31,32,33,64,100,255,256,1000,1024} x every L in 0..=N+2 (N<=13) or {0,1,N-1,N,N+1,2N} x {from_slice, try_from_slice, TryFrom<&[T]>, from_mut_slice, try_from_mut_slice, TryFrom<&mut [T]>} x element in "
              "{u8, u64, (), 4-byte tracked, zero-sized tracked, 16-byte/16-aligned, padded (u8,u16)}; the source is the middle of a larger buffer with canary elements; oracle: accepted iff L == N (documented panic / LengthError otherwise), accepted view = "
              "(address of the source, N), contents in order, writes through mutable views land in the source, canaries untouched. View matrix per (N, element): nine shared views must all be (array address, N) with the elements in order; through each of eight "
@@ -142,7 +173,7 @@ PROPS['C02'] = {
 PROPS['C10'] = {
     'level': 'exploration',
     'technique': 'bounded exhaustive enumeration of (N, slice length L, shared/mutable, element type) for the chunk functions on the real code with pointer/length oracles; the same calls are also run inside the const evaluator by the C18 corpus',
-    'parts': [engine_part('chunks', 'e_views', 'C10', shards_quick=2)],
+    'parts': [engine_part('chunks', 'e_views', 'C10', shards_quick=2, asan='thorough')],
     'rule': ("N in {0,1,2,3,7,8,16,17,33,64,100,1024} x every L in 0..=4N+3 (N>=100: {0,1,N-1,N,N+1,2N-1,2N,2N+1,4N+3}) x {chunks_from_slice, chunks_from_slice_mut} x element in {u8, padded (u8,u16), u64, (), 16-aligned, tracked}; oracle: parts are "
              "(src, L/N) and (src + (L/N)*N*size, L mod N), element [c][j] == src[c*N+j], slice_from_chunks(_mut) of the chunk part is (src, (L/N)*N), writes through each mutable part land at that source index, canaries untouched; N = 0: empty -> two empty "
              "results, non-empty -> the documented panic. from_chunks/into_chunks(_mut) for chunk counts 0..=5: same address and count, writes visible. Non-trivial = L > 0."),
@@ -153,7 +184,7 @@ PROPS['C10'] = {
 PROPS['C11'] = {
     'level': 'exploration',
     'technique': 'bounded exhaustive enumeration of (N, M, owned/&/&mut, element type) for flatten/unflatten on the real code with identity, ledger and address oracles',
-    'parts': [engine_part('regroup', 'e_views', 'C11', shards_quick=1)],
+    'parts': [engine_part('regroup', 'e_views', 'C11', shards_quick=1, asan='thorough')],
     'rule': ("every (N, M) in 0..=6 x 0..=6 (unflatten: N >= 1) plus (1,1024), (1024,1), (16,64), (3,100), (7,9) x {owned, &, &mut} x element in {4-byte tracked, zero-sized tracked, u8, u64}; oracle: flat[i*N+j] is inner[i][j] by identity, unflatten is the exact "
              "inverse, the owned forms drop nothing (ledger), the reference forms return (same address, same byte extent, N*M resp. M elements) and a write at every index (lattice above 36 elements) through the &mut regrouped view appears at the computed "
              "index of the original. Non-trivial = N*M > 0."),
@@ -190,7 +221,7 @@ PROPS['C08'] = {
 PROPS['C09'] = {
     'level': 'exploration',
     'technique': 'bounded exhaustive enumeration of (N, K, M, index, element size) for the sequence operations on the real code against the corresponding Vec operations, with ledger and address oracles',
-    'parts': [engine_part('sequence-ops', 'e_ops', 'C09', shards_quick=1)],
+    'parts': [engine_part('sequence-ops', 'e_seq', 'C09', shards_quick=2, asan='quick')],
     'rule': ("complete for N in 0..=8: append/pop_back/prepend/pop_front chain, split::<K> for every K <= N in owned, & and &mut forms, concat for every (N, M) with N+M <= 8, remove(i) and swap_remove(i) for every i in 0..=N+1 and usize::MAX; plus "
              "N in {15,16,17,31,32,33,63,64,100,255,256,1023,1024} with the position lattice {0,1,N/2,N-1,N}; element types of size 0 (tracked ZST, ()), 1 (u8), 8 (tracked, u64), 24 (tracked, [u8;24]) and 4 (tracked). Oracle: results and removed values "
              "equal Vec push/insert(0)/pop/remove(0)/split_at/extend/remove/swap_remove on the same identities; the ledger shows exactly-once ownership after every step; out-of-range remove/swap_remove raise the documented panic with every element "
@@ -229,7 +260,7 @@ PROPS['C17'] = {
 PROPS['C19'] = {
     'level': 'exploration',
     'technique': 'bounded exhaustive enumeration of (N, element type, prior contents) for zeroize and of (N, element type) for the constant default, evaluated by the compiler (const/static items) and at run time, on the real code',
-    'parts': [engine_part('zeroize-constdefault', 'e_misc', 'C19', shards_quick=1)],
+    'parts': [engine_part('zeroize-constdefault', 'e_misc', 'C19', shards_quick=1, asan='thorough')],
     'rule': ("every N in 0..=65 and {100,127,128,255,256,257,1000,1023,1024} (every even/odd storage shape to depth 6 complete, boundary shapes to depth 10). zeroize: element in {u8, u64, [u8;3], GenericArray<u8,U3>, Probe{a:u8,b:u32}, Wipe7 (zeroizes to the "
              "non-zero value 7)} x prior contents in {all 0xFF, index-dependent, already zero}; every element must equal its zeroized value. Constant default: element in {u8, u64, Probe (DEFAULT a=1, b=0xDEADBEEF), GenericArray<Probe,U3>, (u8,Probe)}; "
              "const_default() and DEFAULT evaluated in a const item, a static item and at run time must all be N copies of T::DEFAULT and equal Default::default(). Non-trivial = N > 0."),
@@ -369,6 +400,10 @@ def own_part():
         for v in res['violations']:
             v['substrate'] = 'dev'
         subs = {'dev(opt-level=0,debug-assertions)': {'evaluations': res['result'].get('evaluations'), 'states': res['result'].get('states'), 'violations': len(res['violations'])}}
+        # AddressSanitizer substrate with the heap-payload element (a double drop is a double free): reduced caps
+        r3 = asan_run('e_own', 'C03', 'quick', 1, extra_args=['--caps', '3,2,4' if tier == 'quick' else '3,3,4', '--budget', '600'])
+        res['violations'] += r3['violations']
+        subs['asan(nightly,-Zsanitizer=address)'] = {'evaluations': r3['result'].get('evaluations'), 'states': r3['result'].get('states'), 'violations': len(r3['violations'])}
         if tier == 'thorough':
             cargo_build('e_own', 'release')
             r2 = run_engine(bin_path('e_own', 'release'), 'C03', 'thorough', shards=1, timeout=4 * 3600, label='release')
@@ -385,9 +420,14 @@ def own_part():
         return res
 
     def replay(part, body):
-        prof = 'release' if body.get('substrate') == 'release' else 'dev'
-        cargo_build('e_own', prof)
-        rc, out, err = run_engine_once(bin_path('e_own', prof), ['--mode', 'C03', '--tier', 'thorough', '--only', body['desc']], None, 600)
+        if body.get('substrate') == 'asan':
+            cargo_build('e_own', 'dev', toolchain='nightly', extra_env=ASAN_ENV, target_dir=asan_target(), extra_args=['--target', ASAN_TRIPLE])
+            binary, env = bin_path('e_own', 'dev', asan_target(), ASAN_TRIPLE), ASAN_RUN_ENV
+        else:
+            prof = 'release' if body.get('substrate') == 'release' else 'dev'
+            cargo_build('e_own', prof)
+            binary, env = bin_path('e_own', prof), None
+        rc, out, err = run_engine_once(binary, ['--mode', 'C03', '--tier', 'thorough', '--only', body['desc']], env, 600)
         viols, result, _ = parse_engine_output(out)
         if rc not in (0, 2) or result is None:
             return [{'desc': body['desc'], 'what': f'process died (status {rc}): {err[-400:]}'}]
